@@ -198,8 +198,9 @@ impl<'a> GetLastStateProofProcess<'a> {
     pub(crate) async fn execute(self) -> Status {
         let last_n_blocks: u64 = self.message.last_n_blocks().into();
 
-        if self.message.difficulties().len() + (last_n_blocks as usize) * 2
-            > constant::GET_LAST_STATE_PROOF_LIMIT
+        if (self.message.difficulties().len() as u64)
+            .saturating_add(last_n_blocks.saturating_mul(2))
+            > constant::GET_LAST_STATE_PROOF_LIMIT as u64
         {
             return StatusCode::MalformedProtocolMessage.with_context("too many samples");
         }
